@@ -134,6 +134,15 @@ func RunCheck(cfg *CheckConfig) int {
 		fc.fieldGuardsOn = true
 		fc.Run()
 		fnCount++
+		// a guard that matches no effect site of the function is a stale contract, not a pass
+		if len(fc.unsupported) == 0 {
+			for _, g := range con.Guards {
+				if fc.guardCount[g.Kind+" "+g.Target+" "+g.Cond.Text] == 0 && fc.guardCount[g.Kind+" "+g.Target] == 0 {
+					fc.unsupported = append(fc.unsupported, "contract-stale: guard "+g.Kind+" "+g.Target+" matches no site in "+fc.fnName())
+					break
+				}
+			}
+		}
 		rep := &FnReport{Name: fc.fnName(), Obligations: len(fc.obls), Unsupported: fc.unsupported}
 		for n := range fc.notes {
 			notes[n] = true
